@@ -1,6 +1,7 @@
 package main
 
 func init() {
+	reg("C06", propCfg{Pkg: "props", Quick: tierCfg{8, 600}, Thorough: tierCfg{14, 25000}})
 	reg("C14", propCfg{Pkg: "props", Quick: tierCfg{12, 25}, Thorough: tierCfg{14, 800}})
 	reg("C13", propCfg{Pkg: "props", Quick: tierCfg{8, 400}, Thorough: tierCfg{14, 12000}})
 	reg("C07", propCfg{Pkg: "props", Quick: tierCfg{12, 120}, Thorough: tierCfg{14, 4000}})
